@@ -316,10 +316,17 @@ func (t *Task) runWithLocking() {
 
 	// wait for module start
 	if !t.module.Online() {
+		online := false
 		if t.module.OnlineSoon() {
 			// wait
-			<-t.module.StartCompleted()
-		} else {
+			select {
+			case <-t.module.StartCompleted():
+				online = true
+			case <-t.module.Stopping():
+				// the start failed (or the module is stopped again)
+			}
+		}
+		if !online {
 			// abort, module will not come online
 			t.lock.Lock()
 			t.executing = false
